@@ -6,13 +6,13 @@ From Coq Require Import List ZArith Bool NArith.
 From Verif Require Import Conc.Machine Conc.Capture Conc.Model.
 Import ListNotations.
 
-(* id, parameters, impl terminated ok, impl output, race in _select, race elsewhere, reference ok, reference output *)
-Definition c08_case := (N * params * bool * list Z * bool * bool * bool * list Z)%type.
+(* id, parameters, observed outcome of the implementation, reference ok, reference output *)
+Definition c08_case := (N * params * observed * bool * list Z)%type.
 
 Definition c08_mis_y (cs : list c08_case) : list N :=
-  flat_map (fun '(id, p, ok, out, rs, ro, _, _) =>
-    if y_admits source_variant p (mkobs ok out rs ro) then [] else [id]) cs.
+  flat_map (fun '(id, p, o, _, _) =>
+    if y_admits source_variant source_writeback p o then [] else [id]) cs.
 
 Definition c08_mis_g (cs : list c08_case) : list N :=
-  flat_map (fun '(id, p, _, _, _, _, rok, rout) =>
+  flat_map (fun '(id, p, _, rok, rout) =>
     if rok && list_z_eqb rout (g_expected p) then [] else [id]) cs.
